@@ -9,7 +9,7 @@
    object that is not live (outcome Dangling of [step]).  [listed u p] = p is in u's input or output
    port list. *)
 From OlaBase Require Import Bytes.
-From C03 Require Import Gen Model Lemmas Proofs Proofs2 Model2 Proofs3 Proofs4 Model3 Proofs5 Proofs6 Model4 Proofs7 Model5 Proofs8.
+From C03 Require Import Gen Model Lemmas Proofs Proofs2 Model2 Proofs3 Proofs4 Model3 Proofs5 Proofs6 Model4 Proofs7 Model5 Proofs8 Proofs9.
 Local Open Scope N_scope.
 
 (* the constants regenerated from include/ola/dmx/SourcePriorities.h are the property's numbers *)
@@ -573,6 +573,50 @@ Example ex_settings_lives :
     match wrun zc w [WSetName 5 4; WSetMode 5 false; zy (XSvcRegister 5 2); zy (XSvcUnregister 5 1);
                      zy (XSvcUnregister 5 2); zy (XBase GC)] with
     | Some w2 => w_pname w2 5 = Some 4 /\ w_pmode w2 5 = Some false /\ s_store (zbase (w_z w2)) = []
+    | None => False
+    end
+  | None => False
+  end.
+Proof. vm_compute. repeat split; reflexivity. Qed.
+
+(* "... and is collected, with its settings saved": in every reachable state and for every operation,
+   (a) a universe (number n, object a) that leaves the store in this step -- collected by GC / housekeeping
+       or deleted by DeleteAll -- has exactly the name and merge mode it had at that moment saved under n;
+   (b) the saved settings of every other number are untouched (so, over a history, the saved settings of n
+       are those the universe had when it was LAST collected or deleted);
+   (c) a universe created in this step gets exactly the saved name (unless that is empty or absent: then
+       the default "Universe <n>", coded 2n+1) and the saved merge mode (LTP if absent). *)
+Theorem c03w_saved_settings : forall (zc : zcfg) (ops : list wop) (w w' : wstate) (o : wop) (r : res),
+  wrun zc (winit zc) ops = Some w -> wstep zc w o = WOk w' r ->
+  (forall n a, sfind n (s_store (zbase (w_z w))) = Some a -> sfind n (s_store (zbase (w_z w'))) <> Some a ->
+     w_pname w' n = Some (w_name w a) /\ w_pmode w' n = Some (w_htp w a)) /\
+  (forall n, (sfind n (s_store (zbase (w_z w))) = None \/
+              sfind n (s_store (zbase (w_z w'))) = sfind n (s_store (zbase (w_z w)))) ->
+     w_pname w' n = w_pname w n /\ w_pmode w' n = w_pmode w n) /\
+  (forall n a, sfind n (s_store (zbase (w_z w'))) = Some a -> sfind n (s_store (zbase (w_z w))) <> Some a ->
+     w_name w' a = (match w_pname w' n with Some v => if v =? 0 then 2 * n + 1 else v | None => 2 * n + 1 end) /\
+     w_htp w' a = (match w_pmode w' n with Some b => b | None => false end)).
+Proof. exact c03w_saved_settings_l. Qed.
+Print Assumptions c03w_saved_settings.
+
+(* two lives of universe 5 and a DeleteAll: first life default name, mode HTP, collected (saved U5/HTP);
+   second life restores them, is renamed to "" and set LTP, deleted by DeleteAll (saved ""/LTP); the third
+   life gets the default name back (an empty saved name is not restored) and LTP *)
+Example ex_saved_settings :
+  let zc := mkzcfg ex_xcfg (fun _ => false) in
+  let zy o := WZ (ZY (YX o)) in
+  match wrun zc (winit zc) [zy (XSvcRegister 5 1); WSetMode 5 true; zy (XSvcUnregister 5 1); zy (XBase GC)] with
+  | Some w1 =>
+    w_pname w1 5 = Some 11 /\ w_pmode w1 5 = Some true /\
+    match wrun zc w1 [zy (XSvcRegister 5 1)] with
+    | Some w2 =>
+      (match sfind 5 (s_store (zbase (w_z w2))) with Some a => w_name w2 a = 11 /\ w_htp w2 a = true | None => False end) /\
+      match wrun zc w2 [WSetName 5 0; WSetMode 5 false; zy (XSvcUnregister 5 1); WDeleteAll; zy (XSvcRegister 5 2)] with
+      | Some w3 =>
+        w_pname w3 5 = Some 0 /\ w_pmode w3 5 = Some false /\
+        (match sfind 5 (s_store (zbase (w_z w3))) with Some a => w_name w3 a = 11 /\ w_htp w3 a = false | None => False end)
+      | None => False
+      end
     | None => False
     end
   | None => False
